@@ -405,9 +405,38 @@ PROBES = {
 }
 
 
+def render_scope(levels):
+    """witness levels [[(prefix|None, uri), ..], ..] (outermost first) -> (document, expected sorted in-scope list)"""
+    names = {}
+
+    def alias(x, kind):
+        if x == "":
+            return ""
+        return names.setdefault((kind, x), "%s%d" % (kind, len([k for k in names if k[0] == kind])))
+    doc_open, doc_close = "", ""
+    scope = {}
+    for i, row in enumerate(levels):
+        attrs = ""
+        for p, u in row:
+            ua = alias(u, "u")
+            if p is None:
+                attrs += " xmlns='%s'" % ua
+                scope["xmlns"] = ua
+            else:
+                pa = alias(p, "p")
+                attrs += " xmlns:%s='%s'" % (pa, ua)
+                scope[pa] = ua
+        doc_open += "<e%d%s>" % (i, attrs)
+        doc_close = "</e%d>" % i + doc_close
+    want = sorted([[k, v] for k, v in scope.items() if v != ""] + [["xml", XML_NS]])
+    return doc_open + doc_close, want
+
+
 def judge(case, out):
     if "panic" in out or "died" in out:
         return True
+    if case.get("op") == "in_scope":
+        return not (out.get("ok") and out.get("in_scope") == case["expected_in_scope"])
     return not (out.get("ok") and out.get("value") == case["expected_value"])
 
 
@@ -472,7 +501,26 @@ def main():
                 if "panic" in rr or "died" in rr or not (rr.get("ok") and rr.get("value") == want):
                     hit = (doc, expr, want, rr)
                     break
-            if hit:
+            if not hit and what == "scope":
+                # the model's own witnesses, rendered as documents (smallest first)
+                for res in sorted(g["bad"], key=lambda r: sum(len(x) for x in r["job"][1]))[:6]:
+                    w = res["witness"]
+                    if "levels" not in w:
+                        continue
+                    doc, want = render_scope(w["levels"])
+                    rr = rp.run({"op": "in_scope", "input": doc})
+                    rep.replays += 1
+                    if "doc_err" in rr:
+                        continue
+                    if "panic" in rr or "died" in rr or not (rr.get("ok") and rr.get("in_scope") == want):
+                        status = "violated"
+                        rep.violation(oid, {"op": "in_scope", "input": doc, "property": "C10", "expected_in_scope": want},
+                                      "the in-scope namespaces of the innermost element of %s are %s, Namespaces in XML gives %s" % (doc, rr.get("in_scope", rr), want))
+                        break
+                else:
+                    status = "inconclusive"
+                    rep.inconclusive.append("%s: %d model witnesses (first %s) reproduce neither on the probe queries nor as documents" % (oid, len(g["bad"]), g["bad"][0]["witness"]))
+            elif hit:
                 status = "violated"
                 doc, expr, want, rr = hit
                 rep.violation(oid, {"op": "query", "doc": doc, "input": expr, "property": "C10", "expected_value": want},
